@@ -106,12 +106,11 @@ theorem sfx_union (st : St) : Sfx st (directiveUnionState st).st := by
   unfold directiveUnionState
   simp only
   split
-  · sfx
-  · rename_i h
-    have hw := (sfx_skip isBlank3 st).trans (sfx_acceptWord h)
+  · have hw := (sfx_skip isBlank3 st).trans (sfx_adv (st.skipWhile isBlank3) 1)
     split
     · exact (hw.trans (sfx_adv _ _)).trans (sfx_ignore _)
     · exact hw.trans (sfx_adv _ _)
+  · sfx
 
 theorem sfx_chain (ws : List (String × Kind)) (st : St) (acc : List Tok) :
     Sfx st (directiveChain ws st acc).2 := by
